@@ -195,9 +195,8 @@ struct Cb;
 impl rustc_driver::Callbacks for Cb {
     fn after_analysis<'tcx>(&mut self, _c: &Compiler, tcx: TyCtxt<'tcx>) -> Compilation {
         let crate_name = tcx.crate_name(LOCAL_CRATE);
-        let want = std::env::var("PPG_DUMP_CRATE").unwrap_or_else(|_| "pypipegraph2".to_string());
-        if crate_name.as_str() != want { return Compilation::Continue; }
-        let out_path = match std::env::var("PPG_DUMP_OUT") { Ok(p) => p, Err(_) => return Compilation::Continue };
+        let dir = match std::env::var("PPG_DUMP_DIR") { Ok(p) => p, Err(_) => return Compilation::Continue };
+        let out_path = format!("{}/{}-{}.json", dir, crate_name.as_str(), std::process::id());
         let mut out = String::from("{\"bodies\":[");
         let mut n = 0;
         for ldid in tcx.hir_body_owners() {
